@@ -506,12 +506,31 @@ func run(t *testing.T, tape *simrt.Tape) *hx.Outcome {
 					// like fs.Mount: prefetch and background fetch start as soon as the layer is resolved,
 					// concurrently with the verification decision
 					psize := int64(dr(len(served) + 1))
-					s.Go(fmt.Sprintf("%s/prefetch%d", t.Label, a), func(*simrt.Task) { l.Prefetch(psize) })
+					bgs := []*simrt.Task{s.Go(fmt.Sprintf("%s/prefetch%d", t.Label, a), func(*simrt.Task) { l.Prefetch(psize) })}
 					if dr(2) == 0 {
-						s.Go(fmt.Sprintf("%s/bgfetch%d", t.Label, a), func(*simrt.Task) { l.BackgroundFetch() })
+						bgs = append(bgs, s.Go(fmt.Sprintf("%s/bgfetch%d", t.Label, a), func(*simrt.Task) { l.BackgroundFetch() }))
 					}
-					if dr(2) == 0 {
-						t.Yield("before-decision")
+					// the decision lands anywhere in the progress of the prefetch / background tasks: wait
+					// (blocked on a predicate the scheduler evaluates, so that simulated time can pass) until one of them has passed a drawn number of scheduling
+					// points, or until the registry has seen a drawn number of further requests (the
+					// decision then races with a fetch in flight)
+					bgRunning := func() bool {
+						for _, b := range bgs {
+							if !b.Done() {
+								return true
+							}
+						}
+						return false
+					}
+					switch dr(4) {
+					case 0:
+					case 1:
+						n0, k := len(reg.Log), 1+dr(4)
+						t.Block("before-decision", func() bool { return len(reg.Log) >= n0+k || !bgRunning() })
+					default:
+						bg := bgs[dr(len(bgs))]
+						target := uint64(dr(1 + []int{4, 16, 64, 256, 1024}[dr(5)]))
+						t.Block("before-decision", func() bool { return bg.Sched >= target || bg.Done() })
 					}
 					prior := strings.Join(decisions, ",")
 					var mode string
@@ -576,14 +595,32 @@ func run(t *testing.T, tape *simrt.Tape) *hx.Outcome {
 					}
 					tree := common.NewTree(rn)
 					nops := 1 + dr(6)
-					for i := 0; i < nops && !s.Failed(); i++ {
-						if (alt.kind == "fscache-tamper" || alt.kind == "httpcache-tamper") && dr(3) == 0 {
+					// half of the mounts end with a sweep: once the prefetch / background tasks of this mount
+					// have finished, every entry is looked up and every file read in full (nothing they
+					// cached may be served unverified by a later read)
+					lateSweep := dr(2) == 0
+					sweep := false
+					for i := 0; i < nops+len(paths) && !s.Failed(); i++ {
+						if i == nops {
+							if !lateSweep {
+								break
+							}
+							t.Join(bgs...)
+							sweep = true
+						}
+						if (alt.kind == "fscache-tamper" || alt.kind == "httpcache-tamper") && !sweep && dr(3) == 0 {
 							tamper(t)
 						}
 						if len(paths) == 0 {
 							break
 						}
-						p := paths[dr(len(paths))]
+						p := paths[0]
+						if !sweep {
+							p = paths[dr(len(paths))]
+						}
+						if sweep {
+							p = paths[i-nops]
+						}
 						m := model.Get(p)
 						nd, eo, errno := tree.Lookup(p)
 						if errno != 0 {
@@ -611,10 +648,10 @@ func run(t *testing.T, tape *simrt.Tape) *hx.Outcome {
 							}
 							continue
 						}
-						for r := 0; r < 1+dr(3) && !s.Failed(); r++ {
+						for r := 0; (r == 0 || !sweep && r < 1+dr(3)) && !s.Failed(); r++ {
 							sz := len(rm.Data)
 							off, ln := 0, sz+1
-							if dr(2) == 0 && sz > 0 {
+							if !sweep && dr(2) == 0 && sz > 0 {
 								off = dr(sz)
 								ln = 1 + dr(sz-off+cs)
 							}
